@@ -182,6 +182,8 @@ fn nets() -> Vec<(BtcNet, u32)> {
     vec![
         (BtcNet::Bitcoin, 0x1b0404cb),
         (BtcNet::Testnet4, 0x1c00ffff),
+        // testnet3: the minimum-difficulty exception without BIP94 (retarget from the last block's bits)
+        (BtcNet::Testnet, 0x1c00ffff),
         (BtcNet::Regtest, 0x207fffff),
     ]
 }
@@ -426,7 +428,7 @@ fn end_to_end(out: &mut Out) {
         }
     }
     // mainnet / testnet: unmined candidates are never accepted
-    for (net, real) in [(BtcNet::Bitcoin, 0x1b0404cbu32), (BtcNet::Testnet4, 0x1c00ffff)] {
+    for (net, real) in [(BtcNet::Bitcoin, 0x1b0404cbu32), (BtcNet::Testnet4, 0x1c00ffff), (BtcNet::Testnet, 0x1c00ffff)] {
         let store = Store::new(base_chain(20, real));
         let parent = store.headers[19];
         for ct in [parent.time + 1, parent.time + 600, parent.time + 1201] {
@@ -615,7 +617,7 @@ pub fn run(tier: &str) -> i32 {
     store_adaptor(&mut rep, quick);
     rep.evaluations = rep.out.states;
     let _ = factory::REGTEST_BITS;
-    rep.rule = "network in {mainnet, testnet4, regtest} x candidate position (h mod 2016 in {0,1,2,2015}) in periods 1 and 2 x {limit, real}^4 bits of the last four headers x gap to parent in {0,1,600,1199,1200,1201,7200} and {-1,-600,-1199,-1200,-1201,-7200} (candidate dated before its parent); retarget boundary x 13 period timespans (negative, 0, around T/4, T, 4T) x first-bits variants (BIP94) x last-bits variants; walk-backs to a period boundary and to genesis; timestamp rule x chain lengths 1..14 x 6 timestamp patterns x 8 candidate times; regtest end-to-end (mined / unmined, known / unknown parent, 5 declared targets, 6 times, 6 chain lengths); and, for the height the rules are evaluated at: in every state of TREE histories with announced-header chains, for every possible parent (tree block or retained announced header) the chain view handed to the validator (height, header at every height across stable store / unstable chain / announced headers, lookup by hash, initial hash) against the reference chain; distinct = distinct required targets / states".into();
+    rep.rule = "network in {mainnet, testnet4, testnet3, regtest} x candidate position (h mod 2016 in {0,1,2,2015}) in periods 1 and 2 x {limit, real}^4 bits of the last four headers x gap to parent in {0,1,600,1199,1200,1201,7200} and {-1,-600,-1199,-1200,-1201,-7200} (candidate dated before its parent); retarget boundary x 13 period timespans (negative, 0, around T/4, T, 4T) x first-bits variants (BIP94) x last-bits variants; walk-backs to a period boundary and to genesis; timestamp rule x chain lengths 1..14 x 6 timestamp patterns x 8 candidate times; regtest end-to-end (mined / unmined, known / unknown parent, 5 declared targets, 6 times, 6 chain lengths); and, for the height the rules are evaluated at: in every state of TREE histories with announced-header chains, for every possible parent (tree block or retained announced header) the chain view handed to the validator (height, header at every height across stable store / unstable chain / announced headers, lookup by hash, initial hash) against the reference chain; distinct = distinct required targets / states".into();
     rep.bounds = json!({"tier": tier});
     rep.assume("the accept side of the composed predicate on mainnet/testnet needs real proof of work and is not reached; it shares the composition code with regtest and its network-specific parts are compared through the rule wrappers");
     rep.assume("reference: an independent re-implementation of Core's GetNextWorkRequired / CalculateNextWorkRequired (BIP94 base on testnet4) and median-time-past, with its own compact-target arithmetic on big integers");
